@@ -5,6 +5,7 @@ CONSTANTS
   Ops = {o1, o2, o3}
   Kind <- KindDef
   FdOf <- FdDef
+  Dir <- DirR
   Fds = {1, 2}
   MaxLen = 14
   Eager = TRUE
